@@ -58,7 +58,8 @@ pub struct Task {
     hooks: ShareLock<HashMap<TaskLifeCycle, Vec<StatementBatch>>>,
 
     runtime: Arc<Runtime>,
-    // sync: Arc<std::sync::Mutex<usize>>,
+    // serializes the client actions on this task
+    sync: Arc<std::sync::Mutex<()>>,
 }
 
 impl Task {
@@ -78,7 +79,7 @@ impl Task {
 
             hooks: Arc::new(RwLock::new(HashMap::new())),
             runtime: rt.clone(),
-            // sync: Arc::new(std::sync::Mutex::new(0)),
+            sync: Arc::new(std::sync::Mutex::new(())),
         }
     }
 
@@ -400,6 +401,9 @@ impl Task {
 
     pub fn update(self: &Arc<Self>, ctx: &Context) -> Result<()> {
         info!("update task={:?}", ctx.task());
+        // the state guards below are check-then-act: concurrent actions on one task take turns,
+        // so that only the first one finds the task open
+        let _lock = self.sync.lock().unwrap_or_else(|e| e.into_inner());
         let action = ctx.action().ok_or(ActError::Action(
             "cannot find action in context".to_string(),
         ))?;
